@@ -590,3 +590,10 @@ V("R2-init-unpacked-first", ["C20"], "gmm", "            self.variances, self.we
 V("R2-iadd-alias-fastpath", ["C19", "C02"], "gmm", "        self.log_likelihood += other.log_likelihood\n        self.t += other.t\n", "        if self.t == 0:\n            self.init_fields(other.log_likelihood, other.t, other.n, other.sum_px, other.sum_pxx)\n            return self\n        self.log_likelihood += other.log_likelihood\n        self.t += other.t\n", "empty accumulator adopts the right operand's arrays: the next += corrupts that operand")
 V("R2-iadd-copy-fastpath", ["C19", "C02"], "gmm", "        self.log_likelihood += other.log_likelihood\n        self.t += other.t\n", "        if self.t == 0:\n            self.init_fields(other.log_likelihood, other.t, other.n.copy(), other.sum_px.copy(), other.sum_pxx.copy())\n            return self\n        self.log_likelihood += other.log_likelihood\n        self.t += other.t\n", "empty accumulator takes copies of the right operand's arrays", kind="benign")
 V("R2-kmeans-select-once", ["C06", "C20", "C04", "C13", "C15"], "kmeans", "    for i in range(n_clusters):\n        means_sum[i] = np.sum(data[closest_centroid_indices == i], axis=0)\n    for i in range(n_clusters):\n        variances_sum[i] = np.sum(np.square(data[closest_centroid_indices == i], dtype=float), axis=0)\n", "    for i in range(n_clusters):\n        cluster_data = data[closest_centroid_indices == i]\n        means_sum[i] = np.sum(cluster_data, axis=0)\n        variances_sum[i] = np.sum(np.square(cluster_data, dtype=float), axis=0)\n", "the two per-cluster loops merged, samples of the cluster selected once", kind="benign")
+
+# ----------------------------------------------------------------------------- survivors of the generic sweep, second pass
+V("S3-reynolds-flag-inverted", ["C05", "C03"], "gmm", "reynolds_adaptation=machine.map_relevance_factor is not None", "reynolds_adaptation=machine.map_relevance_factor is None", "relevance-factor adaptation switched on exactly when no relevance factor is configured")
+V("S3-init-weights-not-uniform", ["C13"], "gmm", "fill_value=1 / self.n_gaussians", "fill_value=2 / self.n_gaussians", "default weights sum to two")
+V("S3-optional-y-inverted", ["C07", "C09"], "factor_analysis", "latent_y_i = latent_y[y_i] if latent_y is not None else None", "latent_y_i = latent_y[y_i] if latent_y is None else None", "speaker factors selected only when absent", count="all")
+V("S3-optional-term-inverted", ["C07", "C09", "C11"], "factor_analysis", "fn_x_ih -= n_ic * V_dot_v if latent_y_i is not None else 0", "fn_x_ih -= n_ic * V_dot_v if latent_y_i is None else 0", "V y subtracted only when y is absent")
+V("S3-optional-neutral-one", ["C07", "C09", "C11"], "factor_analysis", "fn_x_ih -= n_ic * V_dot_v if latent_y_i is not None else 0", "fn_x_ih -= n_ic * V_dot_v if latent_y_i is not None else 1", "an absent speaker factor shifts the residual by one")
